@@ -11,7 +11,7 @@ import (
 	"golang.org/x/tools/go/ssa"
 )
 
-func runSweep(w *World, pkgs []string) []*FnResult {
+func runSweep(w *World, pkgs []string, skip map[*ssa.Function]bool) []*FnResult {
 	var fns []*ssa.Function
 	for path, sp := range w.SSAPkgs {
 		if !strings.HasPrefix(path, repoMod) {
@@ -46,8 +46,8 @@ func runSweep(w *World, pkgs []string) []*FnResult {
 	sort.Slice(fns, func(i, j int) bool { return funcDisplayName(fns[i]) < funcDisplayName(fns[j]) })
 	var out []*FnResult
 	for _, fn := range fns {
-		if _, has := w.Contracts[fn]; has {
-			continue // verified under its contract elsewhere
+		if skip[fn] {
+			continue // verified under its contract in this same check
 		}
 		r := verifyFunction(w, fn, nil, true)
 		r.Kind = "sweep"
